@@ -38,6 +38,8 @@ func runC16(r *Run) {
 	r.DrawYields()
 	peerDataAfterClose := t.Pct(30)
 	emptyClose := t.Pct(30) // the first Close frame carries no status code (1005 / empty payload)
+	secondClose := t.Pct(40)
+	secondAfter := t.Draw(12)
 	msgLen := []int{0, 10, 600, 3000, 9000}[t.Draw(5)]
 	useWriter := t.Draw(2) == 1
 	rc.Lib.Out().Cap = []int{1 << 30, 4096, 512, 64}[t.Draw(4)]
@@ -59,6 +61,7 @@ func runC16(r *Run) {
 	r.D("msg_len", msgLen)
 	r.D("peer_data_after_close", peerDataAfterClose)
 	r.D("empty_close", emptyClose)
+	r.D("second_close", secondClose)
 	r.Nontrivial = true
 
 	bg := context.Background()
@@ -153,6 +156,18 @@ func runC16(r *Run) {
 					return
 				}
 			}
+		})
+	}
+	// a second, explicit Close (the usual deferred Close of an application)
+	// at a drawn distance from the trigger
+	if secondClose {
+		live++
+		r.S.Go("closer2", func() {
+			defer func() { live-- }()
+			for n := 0; n < fireAfter+secondAfter; n++ {
+				r.S.Park("a.closer2")
+			}
+			c.Close(websocket.StatusGoingAway, "again")
 		})
 	}
 	// the trigger
